@@ -12,6 +12,7 @@ KIND_NAMES = {
     1302: 'C13/magnet: magnet.New(String()) vs Magnet.v (render then parse)',
     1303: 'session/metadata: metadata phase of a magnet torrent in the stepped event loop (extension handshakes, ut_metadata exchange, snub/disconnect, messages before the metadata is known, replay of queued messages) vs MetaSess.v',
     1702: 'session/connections: address batches (refusing and answering addresses), handshake results in arrival order, incoming connections, disconnects, stop and start through the real dialer, acceptor and handshakers of a torrent vs ConnLimit.v (addresses waiting, outgoing, incoming, peers, running after every event)',
+    1703: 'session/ram_late_grant: write cache of one piece, two interested seeds, the second waits for memory; the grant is handled after the torrent completed or was stopped: allocated objects afterwards',
     1701: 'C17/ram: resourcemanager vs Ram.v (outcomes and notifications validated; allocation compared exactly)',
     901: 'C09/picker: piecepicker (peer half) under the torrent glue vs Picker.v (picks validated against the legal set)',
     1401: 'C14/resume: boltdbresumer Write then Read of generated records in a real bbolt file vs Resume.run_resume (identity up to the stored precision)',
@@ -114,7 +115,7 @@ PROPS = {
         'assumptions': [],
     },
     'C17': {
-        'kinds': {1701: {'quick': 1200, 'thorough': 20000}, 1702: {'quick': 1000, 'thorough': 20000}, 302: {'quick': 3000, 'thorough': 60000}, 1803: {'quick': 3000, 'thorough': 60000}},
+        'kinds': {1701: {'quick': 1200, 'thorough': 20000}, 1702: {'quick': 1000, 'thorough': 20000}, 1703: {'quick': 300, 'thorough': 6000}, 302: {'quick': 3000, 'thorough': 60000}, 1803: {'quick': 3000, 'thorough': 60000}},
         'trusted': ['Go select semantics: one ready case is chosen; channel operations are atomic steps of the manager loop'],
         'assumptions': ['callers release only reservations they were granted (caller protocol)'],
     },
